@@ -1,0 +1,12 @@
+//go:build verif
+
+// Contracts for the deductive verifier in /verif (govc).  This file contains
+// only comments; it is never compiled into the package.
+package framing
+
+//@ func (*Encoder).Encode(encoder, frame, payload) (n, err)
+//@   serves C09 C10
+//@   nobody contract stated here, body obligations generated under C06/C01 (see below)
+//@   modifies encoder.*, elems(frame)
+//@   ensures err == nil ==> n == len(payload) + 18 && len(payload) <= 1430 && len(frame) >= n
+//@   ensures err != nil ==> n == 0
